@@ -80,6 +80,28 @@ def h3(prog, ctx):
         else:
             ctx.fail("H3", "econf_freeFile releases %s" % fld, f.where,
                      "the owning field `%s` of econf_file is never released: every object leaks it" % fld, key="field:econf_file.%s" % fld)
+    if p in released:
+        ctx.ok("H3", "econf_freeFile releases the object itself", f.where, "free(%s)" % p)
+    else:
+        ctx.fail("H3", "econf_freeFile releases the object itself", f.where, "free(%s) missing: every object leaks its own block" % p, key="field:econf_file")
+    # econf_freeArray: every element, then the array (under whatever name its start was kept)
+    fa = prog.fn("econf_freeArray")
+    pa = fa.params[0]["name"]
+    starts = set([pa])
+    for l9, r9, st9 in fa.assignments():
+        if r9 is not None and render(r9.strip()) == pa:
+            starts.add(l9["name"] if isinstance(l9, dict) else render(l9))
+    fcalls = [c for c in fa.calls("free") if c.call_args()]
+    elem = [c for c in fcalls if any(a9.k in ("WhileStmt", "ForStmt", "DoStmt") for a9 in c.ancestors())]
+    whole = [c for c in fcalls if render(c.call_args()[0]) in starts and not any(a9.k in ("WhileStmt", "ForStmt", "DoStmt") for a9 in c.ancestors())]
+    if elem:
+        ctx.ok("H3", "econf_freeArray releases every element", elem[0].where, render(elem[0])[:50])
+    else:
+        ctx.fail("H3", "econf_freeArray releases every element", fa.where, "no free() inside a loop over the list", key="array-elements")
+    if whole:
+        ctx.ok("H3", "econf_freeArray releases the array", whole[0].where, render(whole[0])[:50])
+    else:
+        ctx.fail("H3", "econf_freeArray releases the array", fa.where, "the block of the list itself is never released: every list leaks it", key="array-block")
     from sa import loops as _loops
     per_entry = set()
     trav = None
@@ -409,8 +431,166 @@ def h8_lists_filled(prog, ctx):
     ctx.counts["H8 malloc'ed string lists"] = n
 
 
+TEXT_FIELDS_OWNED = ("key", "value", "comment_before_key", "comment_after_value")
+
+
+def h9_replaced_text_released(prog, ctx):
+    """H9: an entry owns the strings its text fields point to.  Where a field of an EXISTING entry is given a new string (assignment, or
+    asprintf(&field, ...)), the old one is released: free(field) before, or saved in a local that is freed afterwards on every way on,
+    or the field is known to be NULL there.  Slots that the function has just created (array grown / counted up, a local struct value,
+    a freshly allocated object, the slot constructor initialize()) have nothing to release."""
+    n = 0
+    for f in prog.lib_functions():
+        if f.name in ("initialize",):
+            continue
+        cfg = f.cfg
+        sites = []
+        for lhs, rhs, st, kind in query.stores(f):
+            l0 = lhs.strip()
+            if kind == "=" and l0.k == "MemberExpr" and l0.j.get("rec") == "file_entry" and l0.j.get("member") in TEXT_FIELDS_OWNED:
+                sites.append((st, l0, "assign"))
+        for c in f.calls(("asprintf", "vasprintf")):
+            a0 = c.call_args()[0].strip() if c.call_args() else None
+            if a0 is not None and a0.k == "UnaryOperator" and a0.j.get("op") == "&":
+                t0 = a0.children[0].strip()
+                if t0.k == "MemberExpr" and t0.j.get("rec") == "file_entry" and t0.j.get("member") in TEXT_FIELDS_OWNED:
+                    sites.append((c, t0, "asprintf"))
+        if not sites:
+            continue
+        # is the slot fresh in this function?
+        grows = [c for c in f.calls(("realloc", "calloc", "malloc")) if "file_entry" in render(c) or "sizeof(econf_file)" in render(c)]
+        counts_up = [st for l, r, st, k in query.stores(f) if k == "++" and render(l).endswith("length")]
+        nomem = set(cfg.block_of(r) for r in f.returns() if query.returned_constant(r) == "ECONF_NOMEM" or (r.children and r.children[0].is_null_const()))
+        for site, fld, how in sites:
+            path = render(fld)
+            base = fld.children[0].strip()
+            root = base
+            while root.k in ("ArraySubscriptExpr", "MemberExpr", "UnaryOperator", "ParenExpr", "ImplicitCastExpr") and root.children:
+                root = root.children[0].strip()
+            if base.k == "DeclRefExpr" and base.j.get("dk") == "local" and not (base.j.get("ct") or "").endswith("*"):
+                continue                                        # a local struct value being filled
+            fresh = any(cfg.block_of(site) in cfg.reachable(cfg.block_of(g)) for g in grows + counts_up) and ("length - 1" in path or "length]" in path)
+            if fresh:
+                continue
+            n += 1
+            sb = cfg.block_of(site)
+            inst = "%s: %s %s" % (f.name, path[:50], "= ..." if how == "assign" else "<- asprintf")
+            # (a) free(field) in front, nothing stored into it since
+            frees = [c for c in f.calls("free") if c.call_args() and render(c.call_args()[0]) == path and cfg.node_dominates(c, site)]
+            if not frees:
+                # `if (field) free(field);` - every way to the site passes the free or the edge on which the field is NULL
+                fbs = set(cfg.block_of(c) for c in f.calls("free") if c.call_args() and render(c.call_args()[0]) == path)
+                succ9 = {(b9, i9): t9 for (b9, i9, t9) in cfg.edges()}
+                if fbs:
+                    okf, cutf = cfg.all_paths_cut(sb, lambda lit, b, i: succ9.get((b, i)) in fbs or b in fbs or (
+                        lit is not None and ((lit.kind == "truth" and not lit.pol and lit.atom == path) or (
+                            lit.kind == "eq" and lit.pol and path in (render(lit.lhs), render(lit.rhs)) and 0 in (lit.lhs.const_value(), lit.rhs.const_value())))))
+                    if okf and cutf:
+                        frees = [c for c in f.calls("free") if cfg.block_of(c) in fbs]
+            # (c) the field is known to be NULL
+            req = cfg.required_literals(sb)
+            empty = any(l is not None and ((l.kind == "truth" and not l.pol and l.atom == path) or (l.kind == "eq" and l.pol and path in (render(l.lhs), render(l.rhs)) and
+                                           0 in (l.lhs.const_value(), l.rhs.const_value()))) for l in req)
+            # (b) saved in a local that is freed on every way on
+            saved = None
+            for l2, r2, st2 in f.assignments():
+                if r2 is not None and render(r2) == path and cfg.node_dominates(st2, site):
+                    v = l2["name"] if isinstance(l2, dict) else render(l2)
+                    if empty is False:
+                        empty = any(l is not None and ((l.kind == "truth" and not l.pol and l.atom == v) or (l.kind == "eq" and l.pol and v in (render(l.lhs), render(l.rhs)) and
+                                                       0 in (l.lhs.const_value(), l.rhs.const_value()))) for l in req)
+                    fb = [cfg.block_of(c) for c in f.calls("free") if c.call_args() and render(c.call_args()[0]) == v and (
+                        cfg.block_of(c) in cfg.reachable(sb))]
+                    if fb:
+                        lp = next((a for a in site.ancestors() if a.k in ("ForStmt", "WhileStmt", "DoStmt")), None)
+                        targets = [cfg.exit] + ([cfg.loop_header(lp)] if lp is not None and cfg.loop_header(lp) is not None else [])
+                        reach = cfg.reachable(sb, avoid_blocks=[b for b in fb if b != sb] + list(nomem))
+                        same_block_after = sb in fb
+                        if same_block_after or not any(t in reach and t != sb for t in targets):
+                            saved = v
+            if frees:
+                ctx.ok("H9", inst, site.where, "free(%s) before" % path[:40])
+            elif saved:
+                ctx.ok("H9", inst, site.where, "old text saved in `%s`, which is freed on every way on" % saved)
+            elif empty:
+                ctx.ok("H9", inst, site.where, "the field is known to be NULL here")
+            else:
+                ctx.fail("H9", inst, site.where,
+                         "the entry's old `%s` is overwritten without being released: every such replacement (a repeated key with JOIN_SAME_ENTRIES, a continuation "
+                         "line, a second set of the same key) leaks the previous text" % fld.j.get("member"), key="replace-leak:%s:%s" % (f.name, fld.j.get("member")))
+    ctx.floor("C20.H9 replacements of an entry's text", n, 10)
+
+
+LIST_LVALUES = (r"->parse_dirs$", r"->conf_dirs$", r"->groups$", r"^\*keys$", r"^\*groups$", r"^conf_dirs$", r"^configure_dirs$", r"^parse_dirs$")
+
+
+def h10_lists_terminated(prog, ctx):
+    """H10: the string lists of the library (parse_dirs, conf_dirs, groups, the key and group lists handed to the caller) end with a NULL
+    slot - econf_freeArray() and every caller walk them up to it.  Where such a list is allocated there is room for that slot (count + 1
+    or more), and where the memory does not come zeroed (malloc, realloc) the NULL is stored."""
+    n = 0
+    for f in prog.lib_functions():
+        cfg = f.cfg
+        for c in f.calls(("malloc", "calloc", "realloc")):
+            up = c.up()
+            while up is not None and up.k in ("CStyleCastExpr", "ImplicitCastExpr", "ParenExpr"):
+                up = up.up()
+            if up is None:
+                continue
+            if up.k == "BinaryOperator" and up.j.get("op") == "=":
+                lv = render(up.children[0])
+            elif up.k == "DeclStmt":
+                lv = up.j["decls"][0]["name"]
+            else:
+                continue
+            if not any(re.search(pat, lv) for pat in LIST_LVALUES):
+                continue
+            a = c.call_args()
+            size = a[0] if c.j["callee"] != "realloc" else a[1]
+            t = render(size)
+            if c.j["callee"] == "calloc":
+                t = render(a[0])
+                cnt = t
+            else:
+                m9 = re.fullmatch(r"sizeof\(char \*\) \* \((.+)\)|\((.+)\) \* sizeof\(char \*\)|sizeof\(char \*\)", t)
+                if not m9:
+                    continue
+                cnt = m9.group(1) or m9.group(2) or "1"
+            n += 1
+            inst = "%s: list %s" % (f.name, lv[:40])
+            cv = None
+            try:
+                cv = int(cnt)
+            except ValueError:
+                pass
+            m2 = re.search(r"\+ ?(\d+)\)?$", cnt.strip())
+            pre_inc = "++" in cnt
+            room = (cv is not None and cv >= 1) or (m2 is not None and int(m2.group(1)) >= 1)
+            if not room and not pre_inc:
+                ctx.fail("H10", inst + " has room for its terminator", c.where,
+                         "allocated for `%s` slots: none is left for the terminating NULL - whoever walks the list (econf_freeArray(), the caller) reads behind it" % cnt,
+                         key="list-room:%s:%s" % (f.name, lv))
+                continue
+            if c.j["callee"] == "calloc":
+                ctx.ok("H10", inst + " is terminated", c.where, "calloc(%s, ..): the slot behind the members is NULL" % cnt)
+                continue
+            base = lv
+            nul = [st for l2, r2, st, k2 in query.stores(f) if k2 == "=" and r2 is not None and (r2.is_null_const() or r2.const_value() == 0)
+                   and l2.strip().k == "ArraySubscriptExpr" and render(l2.strip().children[0]) in (base, "(" + base + ")")
+                   and (cfg.block_of(st) in cfg.reachable(cfg.block_of(c)))]
+            if nul:
+                ctx.ok("H10", inst + " is terminated", nul[0].where, render(nul[0])[:60])
+            else:
+                ctx.fail("H10", inst + " is terminated", c.where,
+                         "after %s(%s) no NULL is stored into the list: its last slot holds what the allocator returned, and the list is walked (and freed) behind its "
+                         "members" % (c.j["callee"], t[:40]), key="list-terminator:%s:%s" % (f.name, lv))
+    ctx.floor("C20.H10 list allocations", n, 6)
+
+
 def run(prog, ctx):
     h8_lists_filled(prog, ctx)
+    h10_lists_terminated(prog, ctx)
+    h9_replaced_text_released(prog, ctx)
     # H7: the directory lists of an object are released by the code that replaces them only when their count says they exist: an
     # allocated list always has at least one member, i.e. every round of the option parser's splitting loop stores one (= C15.O11)
     # H6: the object a merge hands out is nobody else's (= C03.M0)
